@@ -1353,12 +1353,26 @@ impl ArithOp {
     }
 }
 
+/// Print a float constant so that it parses back as a float: Rust's `{}` prints 2.0 as
+/// "2" (and -0.0 as "-0"), which the parser reads as the integer 2 - a different constant
+/// (Float64(2.0) does not join or compare equal with Int64(2)).
+fn format_float_literal(val: f64) -> String {
+    let s = format!("{val}");
+    if val.is_finite() && !s.contains('.') && !s.contains('e') && !s.contains('E') {
+        format!("{s}.0")
+    } else {
+        s
+    }
+}
+
 impl std::fmt::Display for ArithExpr {
     fn fmt(&self, f: &mut std::fmt::Formatter<'_>) -> std::fmt::Result {
         match self {
             ArithExpr::Variable(name) => write!(f, "{name}"),
             ArithExpr::Constant(val) => write!(f, "{val}"),
-            ArithExpr::FloatConstant(bits) => write!(f, "{}", f64::from_bits(*bits)),
+            ArithExpr::FloatConstant(bits) => {
+                write!(f, "{}", format_float_literal(f64::from_bits(*bits)))
+            }
             ArithExpr::Binary { op, left, right } => {
                 let parent_prec = op.precedence();
 
@@ -1476,7 +1490,7 @@ impl std::fmt::Display for Term {
             Term::Constant(val) => write!(f, "{val}"),
             Term::StringConstant(s) => write!(f, "\"{s}\""),
             Term::BoolConstant(b) => write!(f, "{b}"),
-            Term::FloatConstant(val) => write!(f, "{val}"),
+            Term::FloatConstant(val) => write!(f, "{}", format_float_literal(*val)),
             Term::Placeholder => write!(f, "_"),
             Term::Arithmetic(expr) => write!(f, "{expr}"),
             Term::Aggregate(func, var) => {
